@@ -632,71 +632,46 @@ fn error_common() {
     core::mem::forget(pkt);
 }
 
-/// C03 at larger counts ("counts fully materialised"): count symbolic in 29..=33 over a
-/// buffer holding 33 records of which only the first two bytes (count) are symbolic; the
-/// record bytes are a fixed pattern so that symex runs essentially concretely.  Decides
-/// that the number of decoded records is header.count, not something capped or rounded,
-/// and that the packet ends after 24 + 48*count bytes.
-#[kani::proof]
-#[kani::stub(core::fmt::write, no_fmt)]
-fn v5_count_around_30() {
-    const MAXC: usize = 33;
-    const N: usize = H + 48 * MAXC;
-    let mut b = [0u8; N];
-    let mut i = 0;
-    while i < N {
-        b[i] = (i % 251) as u8;
-        i += 1;
-    }
-    let count: u16 = kani::any();
-    kani::assume(count >= 29 && count <= MAXC as u16);
-    b[0] = 0;
-    b[1] = count as u8;
-    match V5::parse(&b) {
-        Ok((rem, p)) => {
-            assert!(p.header.count == count);
-            assert!(p.flowsets.len() == count as usize);
-            assert!(rem.len() == N - (H + 48 * count as usize));
-            let last = &p.flowsets[count as usize - 1];
-            assert!(last.src_port == be16(&b, H + 48 * (count as usize - 1) + 32));
-            kani::cover!(count == 31);
-            core::mem::forget(p);
+/// C03 at larger counts ("counts fully materialised"): count written (30, 31, 32) over a
+/// buffer of exactly that many patterned records plus 5 trailing bytes, so that symex runs
+/// essentially concretely.  Decides that the number of decoded records is header.count, not
+/// something capped or rounded, and that the packet ends after 24 + rec*count bytes.
+macro_rules! count_n {
+    ($name:ident, $ty:ident, $rec:expr, $count:expr) => {
+        #[kani::proof]
+        #[kani::stub(core::fmt::write, no_fmt)]
+        fn $name() {
+            const C: usize = $count;
+            const N: usize = H + $rec * C + 5;
+            let mut b = [0u8; N];
+            let mut i = 0;
+            while i < N {
+                b[i] = (i % 251) as u8;
+                i += 1;
+            }
+            b[0] = (C >> 8) as u8;
+            b[1] = C as u8;
+            let tail: u8 = kani::any();
+            b[N - 1] = tail;
+            match $ty::parse(&b) {
+                Ok((rem, p)) => {
+                    assert!(p.header.count as usize == C);
+                    assert!(p.flowsets.len() == C);
+                    assert!(rem.len() == 5 && rem[4] == tail);
+                    let last = &p.flowsets[C - 1];
+                    assert!(last.src_port == be16(&b, H + $rec * (C - 1) + 32));
+                    core::mem::forget(p);
+                }
+                Err(e) => {
+                    assert!(false);
+                    core::mem::forget(e);
+                }
+            }
         }
-        Err(e) => {
-            assert!(false);
-            core::mem::forget(e);
-        }
-    }
+    };
 }
-
-#[kani::proof]
-#[kani::stub(core::fmt::write, no_fmt)]
-fn v7_count_around_30() {
-    const MAXC: usize = 33;
-    const N: usize = H + 52 * MAXC;
-    let mut b = [0u8; N];
-    let mut i = 0;
-    while i < N {
-        b[i] = (i % 251) as u8;
-        i += 1;
-    }
-    let count: u16 = kani::any();
-    kani::assume(count >= 29 && count <= MAXC as u16);
-    b[0] = 0;
-    b[1] = count as u8;
-    match V7::parse(&b) {
-        Ok((rem, p)) => {
-            assert!(p.header.count == count);
-            assert!(p.flowsets.len() == count as usize);
-            assert!(rem.len() == N - (H + 52 * count as usize));
-            let last = &p.flowsets[count as usize - 1];
-            assert!(last.src_port == be16(&b, H + 52 * (count as usize - 1) + 32));
-            kani::cover!(count == 31);
-            core::mem::forget(p);
-        }
-        Err(e) => {
-            assert!(false);
-            core::mem::forget(e);
-        }
-    }
-}
+count_n!(v5_count_30, V5, 48, 30);
+count_n!(v5_count_31, V5, 48, 31);
+count_n!(v5_count_300, V5, 48, 300);
+count_n!(v7_count_31, V7, 52, 31);
+count_n!(v7_count_257, V7, 52, 257);
